@@ -85,33 +85,65 @@ func (m *Model) Start() {
 	}
 }
 
-func (m *Model) feed(dir int, chunk []byte) {
-	for len(chunk) > 0 {
-		n := len(chunk)
-		if n > consumeReadSize {
-			n = consumeReadSize
+// effective splits chunk sizes the way the endpoint's data-phase reads will see them (its read
+// buffer holds consumeReadSize bytes).
+func effective(sizes []int, total int) []int {
+	var out []int
+	left := total
+	add := func(n int) {
+		for n > 0 {
+			k := n
+			if k > consumeReadSize {
+				k = consumeReadSize
+			}
+			out = append(out, k)
+			n -= k
 		}
-		m.call("net %s %s", sessName(dir), vlib.Hex(chunk[:n]))
-		chunk = chunk[n:]
 	}
+	for _, n := range sizes {
+		if n <= 0 || left == 0 {
+			continue
+		}
+		if n > left {
+			n = left
+		}
+		add(n)
+		left -= n
+	}
+	add(left)
+	return out
+}
+
+func sizesArg(sizes []int) string {
+	var sb strings.Builder
+	for i := 0; i < len(sizes); {
+		j := i
+		for j < len(sizes) && sizes[j] == sizes[i] {
+			j++
+		}
+		if sb.Len() > 0 {
+			sb.WriteByte(',')
+		}
+		if j-i > 1 {
+			fmt.Fprintf(&sb, "%dx%d", sizes[i], j-i)
+		} else {
+			fmt.Fprintf(&sb, "%d", sizes[i])
+		}
+		i = j
+	}
+	return sb.String()
+}
+
+func (m *Model) feed(dir int, chunk []byte) {
+	m.Deliver(dir, chunk, nil)
 }
 
 // Deliver queues the same network reads the real receiver will see.
 func (m *Model) Deliver(dir int, wire []byte, sizes []int) {
-	if m == nil {
+	if m == nil || len(wire) == 0 {
 		return
 	}
-	for _, n := range sizes {
-		if n <= 0 || len(wire) == 0 {
-			continue
-		}
-		if n > len(wire) {
-			n = len(wire)
-		}
-		m.feed(dir, wire[:n])
-		wire = wire[n:]
-	}
-	m.feed(dir, wire)
+	m.call("nets %s %s %s", sessName(dir), vlib.Hex(wire), sizesArg(effective(sizes, len(wire))))
 }
 
 // Fail queues a network error (eof | timeout | other).
